@@ -62,12 +62,15 @@ Definition enc_attr (s : bytes) : bytes := flat_map enc_attr_char s.
 Inductive aval :=
 | VLit (v : bytes)              (* name="v"                      *)
 | VNone                         (* name                          *)
-| VDynStr (v : bytes)           (* name={e}, e : String = v      *)
+| VDynStr (v : bytes)           (* name={e}, e : String = v; also name=2.50 / 'c' / -1: any value that
+                                   is not a string literal and whose Display is v *)
 | VDynBool (b : bool)           (* name={e}, e : bool            *)
 | VDynOpt (o : option bytes).   (* name={e}, e : Option<String>  *)
 
 Inductive attr :=
-| APlain (name : bytes) (v : aval)          (* also name = "class" / "style" (VLit / VDynStr only) *)
+| APlain (name : bytes) (v : aval)          (* also name = "class" / "style" (VLit / VDynStr only);
+                                               [name] is the HTML name: both paths map http_equiv,
+                                               accept_charset, aria_x to the dashed name *)
 | AClassTog (name : bytes) (v : option bool) (* class:name   |  class:name={b}                      *)
 | AClassTup (names : list bytes) (b : bool)  (* class=("n", b)  |  class=(["n1","n2"], b)            *)
 | AStyleProp (prop : bytes) (v : bytes)      (* style:prop="v"  |  style:prop={e}                    *)
